@@ -44,6 +44,14 @@ MUTANTS = {
             ('capture-le', 'wave_sim.py', "        if t < time:\n            val ^= 1\n        if t <= TMIN: continue\n        if s_sqrt2 > 0:\n            acc += m * (1 + math.erf((t - time) / s_sqrt2))\n        eat = min(eat, t)\n        lst = max(lst, t)\n        tog += 1\n    if s_sqrt2 > 0:\n        if m < 0:\n            acc += 1\n        if acc >= 0.99:\n            val = 1\n        elif acc > 0.01:\n            seed = (seed << 4) + (vector << 20) + c_loc", "        if t <= time:\n            val ^= 1\n        if t <= TMIN: continue\n        if s_sqrt2 > 0:\n            acc += m * (1 + math.erf((t - time) / s_sqrt2))\n        eat = min(eat, t)\n        lst = max(lst, t)\n        tog += 1\n    if s_sqrt2 > 0:\n        if m < 0:\n            acc += 1\n        if acc >= 0.99:\n            val = 1\n        elif acc > 0.01:\n            seed = (seed << 4) + (vector << 20) + c_loc"),
             ('gpu-lst', 'wave_sim.py', "    s[5, y, vector] = lst", "    s[5, y, vector] = eat"),
             ('acc-weights-swapped', 'wave_sim.py', "                abuf[a_loc, sim] += nrise*a_wr + nfall*a_wf", "                abuf[a_loc, sim] += nrise*a_wf + nfall*a_wr")],
+    'C07': [('level-ge', 'sim.py', "if levels[i0_idx] >= current_level or levels[i1_idx] >= current_level or levels[i2_idx] >= current_level or levels[i3_idx] >= current_level:", "if levels[i0_idx] >= current_level or levels[i1_idx] >= current_level or levels[i2_idx] > current_level or levels[i3_idx] >= current_level:"),
+            ('level-ignores-stems', 'sim.py', "            i1_idx = stems[op[3]] if stems[op[3]] >= 0 else op[3]\n            i2_idx = stems[op[4]] if stems[op[4]] >= 0 else op[4]\n            i3_idx = stems[op[5]] if stems[op[5]] >= 0 else op[5]\n            if levels", "            i1_idx = op[3]\n            i2_idx = stems[op[4]] if stems[op[4]] >= 0 else op[4]\n            i3_idx = stems[op[5]] if stems[op[5]] >= 0 else op[5]\n            if levels"),
+            ('free-inside-level', 'sim.py', "                if ref_count[i0_idx] <= 0: free_set.add(self.c_locs[i0_idx])", "                if ref_count[i0_idx] <= 0 and c_reuse: h.free(self.c_locs[i0_idx])")],
+    'C08': [('no-coalesce-next', 'sim.py', "        if released_idx < len(self.released) and loc + size == self.released[released_idx]:  # next chunk is free, merge", "        if False:  # next chunk is free, merge"),
+            ('split-wrong-remainder', 'sim.py', "                self.chunks[loc + size] = chunksize - size", "                self.chunks[loc + size] = chunksize"),
+            ('hwm-not-updated', 'sim.py', "        self.max_size = max(self.max_size, self.current_size)", "        self.max_size = max(self.max_size, loc)"),
+            ('pin-ppo-missing', 'sim.py', "                i0_idx = stems[n.ins[0]] if stems[n.ins[0]] >= 0 else n.ins[0]\n                ref_count[i0_idx] += 1", "                i0_idx = stems[n.ins[0]] if stems[n.ins[0]] >= 0 else n.ins[0]"),
+            ('tail-trim-forgets-prev', 'sim.py', "                    del self.chunks[prev]\n                    del self.released[-1]\n                    self.current_size -= chunksize", "                    del self.chunks[prev]\n                    self.current_size -= chunksize")],
 }
 
 
